@@ -41,6 +41,9 @@ def impl_call(case):
         return out
     if op == 'obs':
         return obs_call(case)
+    if op == 'normalize':       # the same verdict decides what normalize() does (C10's machinery, placed pairs only)
+        from . import c10
+        return c10.impl_call(case)
     raise KeyError(op)
 
 
@@ -125,6 +128,9 @@ def obs_call(case):
 
 
 def model_case(case):
+    if case['op'] == 'normalize':
+        from . import c10
+        return c10.model_case(case)
     c = {k: v for k, v in case.items() if not k.startswith('_')}
     c.update({k: v for k, v in PAR.items() if k not in c})
     if c['op'] == 'obs':
@@ -133,6 +139,9 @@ def model_case(case):
 
 
 def compare(case, o, m):
+    if case['op'] == 'normalize':
+        from . import c10
+        return c10.compare(case, o, m)
     o2 = {k: v for k, v in o.items() if not k.startswith('_')}
     if 'ok' in o2 and isinstance(o2['ok'], dict):
         o2 = {'ok': {k: v for k, v in o2['ok'].items() if not k.startswith('_')}}
@@ -152,6 +161,10 @@ def oracle(rep, case, out):
         return
     if op == 'check_overlap':
         oracle_verdict(rep, case, out)
+        return
+    if op == 'normalize':
+        from . import c10
+        c10.oracle_admission(rep, case, out)
         return
     oracle_obs(rep, case, out)
 
@@ -404,11 +417,18 @@ def run(rep):
     cases += gen_exhaustive(rng, K, thorough)
     cases += gen_grading(rng, K, 6000 if thorough else 600)
     cases += gen_random(rng, K, 40000 if thorough else 1500)
+    from . import c10
+    placed = []
+    while len(placed) < (3000 if thorough else 300):
+        c = c10.gen_case(rng, K, thorough)
+        if c.get('_placed'):
+            placed.append(c)
+    cases += placed
     rep.rule = ('all pairs of sub-intervals of a 6-point lattice (every interval relation incl. shared end points) x '
                 '{untapered, tapered} bandpass x {table, faint table (values 2^-28 .. 2^-90), tapered table, box with waveset, unbounded constant, redshifted table} source: '
                 'check_overlap verdicts (some with other thresholds) and Observation construction with force in '
                 '{None, none, taper, extrap, extrapolate, TAPER, Extrap, bogus}, sampled inside, outside and far outside both ranges; '
-                'plus graded placements (bandpass sticking out of an untapered source range by a sliver or a large part, on either or both sides, x 6 thresholds), random source/bandpass pairs off the lattice and overlap_status on arrays. Non-trivial: a verdict or an admission decision was produced.')
+                'normalize() on graded and disjoint placements x force (the same verdict must raise DisjointError / PartialOverlap or proceed); plus graded placements (bandpass sticking out of an untapered source range by a sliver or a large part, on either or both sides, x 6 thresholds), random source/bandpass pairs off the lattice and overlap_status on arrays. Non-trivial: a verdict or an admission decision was produced.')
 
     def tags(c, o):
         t = [c['op'], 'outcome:' + (o.get('err') or (o['ok'] if isinstance(o.get('ok'), str) else 'ok'))]
